@@ -320,7 +320,7 @@ func (k *r3jclient) positionEffect(in ssa.Instruction) string {
 func (k *r3jclient) Instr(s r3jstate, in ssa.Instruction) (r3jstate, bool, []r3jstate) {
 	pos := k.p.Pos(token.Pos(instrPos(in)))
 	if call, ok := in.(*ssa.Call); ok {
-		if sc := call.Common().StaticCallee(); sc != nil && sc.Name() == "trimLeft" && core.FuncPkg(sc) == core.FuncPkg(k.fn) {
+		if sc := call.Common().StaticCallee(); sc != nil && core.FuncName(sc) == "trimLeft" && core.FuncPkg(sc) == core.FuncPkg(k.fn) {
 			k.trims++
 			s.chunk = k.num.id(call)
 			if k.fn == k.fam.feedUntil {
@@ -547,7 +547,7 @@ func (k *phClient) Instr(s phState, in ssa.Instruction) (phState, bool, []phStat
 			}
 		}
 	case *ssa.Call:
-		if sc := x.Common().StaticCallee(); sc != nil && sc.Name() == "stepLen" {
+		if sc := x.Common().StaticCallee(); sc != nil && core.FuncName(sc) == "stepLen" {
 			k.calls++
 			if s.head {
 				k.bad = "looks at the first byte of the chunk as a marker and then, in the same state, calls stepLen at " + k.p.Pos(x.Pos()) + ": when the length bytes arrive in a later chunk the step is re-entered with a LENGTH byte at the head and interprets it as a marker (a key length of 125 = '}' split after its length marker ends the object)"
@@ -578,7 +578,7 @@ func parkedHead(p *core.Prog, r *core.Result, fam *parserFamily, fns []*ssa.Func
 	n := 0
 	for _, f := range fns {
 		sf, ok := fam.steps[f]
-		if !ok || f.Name() == "stepLen" {
+		if !ok || core.FuncName(f) == "stepLen" {
 			continue
 		}
 		k := &phClient{p: p, fn: f, chunk: sf.chunk}
